@@ -65,6 +65,8 @@ class Mini:
                 raise Unsupported(f"unknown name {e.id}")
             if isinstance(v, _PLAIN):
                 return v
+            if isinstance(v, (list, tuple)) and all(isinstance(x, _PLAIN) for x in v):
+                return list(v) if isinstance(v, list) else tuple(v)
             raise Unsupported(f"name {e.id} is not a plain constant")
         if isinstance(e, ast.Attribute):
             try:
@@ -112,8 +114,14 @@ class Mini:
             return True
         if isinstance(e, ast.IfExp):
             return self.ev(e.body, env) if self.ev(e.test, env) else self.ev(e.orelse, env)
-        if isinstance(e, ast.Tuple):
-            return tuple(self.ev(x, env) for x in e.elts)
+        if isinstance(e, (ast.Tuple, ast.List)):
+            items = []
+            for x in e.elts:
+                if isinstance(x, ast.Starred):
+                    items.extend(self.ev(x.value, env))
+                else:
+                    items.append(self.ev(x, env))
+            return tuple(items) if isinstance(e, ast.Tuple) else items
         if isinstance(e, ast.Call):
             d = dotted(e.func) or ""
             if d in _FUN and not e.keywords:
@@ -164,6 +172,11 @@ class Mini:
                 if e is not None:
                     raise _Stop(self.ev(e, env))
             if isinstance(s, ast.Expr):
+                c = s.value
+                # list building on a local: xs.append(v) / xs.extend(vs) / xs += ...
+                if isinstance(c, ast.Call) and isinstance(c.func, ast.Attribute) and isinstance(c.func.value, ast.Name) and isinstance(env.get(c.func.value.id), list) and c.func.attr in ("append", "extend") and len(c.args) == 1 and not c.keywords:
+                    v = self.ev(c.args[0], env)
+                    env[c.func.value.id] = env[c.func.value.id] + ([v] if c.func.attr == "append" else list(v))
                 continue  # logging etc. - no effect on the values
             if isinstance(s, ast.Pass):
                 continue
@@ -175,7 +188,9 @@ class Mini:
                     self._bind(t, v, env)
                 continue
             if isinstance(s, ast.AugAssign) and isinstance(s.target, ast.Name) and type(s.op) in _BIN:
-                env[s.target.id] = _BIN[type(s.op)](env[s.target.id], self.ev(s.value, env))
+                cur = env[s.target.id] if s.target.id in env else self.ev(s.target, env)
+                val = self.ev(s.value, env)
+                env[s.target.id] = (list(cur) + list(val)) if isinstance(cur, list) and isinstance(s.op, ast.Add) else _BIN[type(s.op)](cur, val)
                 continue
             if isinstance(s, ast.If):
                 self.run(s.body if self.ev(s.test, env) else s.orelse, env, stop)
